@@ -4,7 +4,7 @@ CONSTANTS
   MaxLen = 4
   MaxTrials = 2
   MaxGens = 2
-  Fits = {1, 2}
+  Fits <- MixedFits
   Divs = {2}
 INVARIANTS SeriesLaws SeriesPermutationInvariant ExperLaws
 CHECK_DEADLOCK FALSE
